@@ -435,18 +435,18 @@ class _Collect:
 
 
 def _replay_tag(job):
-    tag, (spec_cls, real, optname, fixed, latlon, temporal), scdir, cap2, rseed, tier, seed = job
+    tag, (spec_cls, real, optname, fixed, latlon, temporal), scdir, cap2, rseed, tier, seed, gtag = job
     rng = random.Random(rseed)
     col = _Collect()
     behs = []
     for kind in ("G1", "G2"):
-        dot = os.path.join(scdir, "%s_%s.dot" % (kind, tag))
+        dot = os.path.join(scdir, "%s_%s.dot" % (kind, gtag))
         nodes, edges, inits = tlc.read_dot(dot)
         ps, _left = paths.edge_cover(nodes, edges, inits, rng=rng, merge=(kind == "G2"))
         if kind == "G2" and cap2 and len(ps) > cap2:
             ps = rng.sample(ps, cap2)
         behs += [("state-graph edge cover (%s)" % kind, [nodes[i] for i in p]) for p in ps]
-    for beh in tlc.read_sim_traces(os.path.join(scdir, "sim"), "SIM_" + tag):
+    for beh in tlc.read_sim_traces(os.path.join(scdir, "sim"), "SIM_" + gtag):
         behs.append(("simulate", [s for _a, s in beh]))
     out = {"traces": 0, "nontrivial": set(), "samples": [], "steps": 0}
     for origin, sts in behs:
@@ -736,11 +736,17 @@ def run(pid, tier, seed, replay=None):
         return 0
     thorough = tier == "thorough"
     with tlc.Scratch() as sc:
-        jobs, meta = [], {}
+        jobs, meta, shared, graph_of = [], {}, {}, {}
         os.makedirs(sc.path("sim"), exist_ok=True)
         for (spec_cls, real, optname, fixed, latlon, temporal) in plan(tier):
             tag = "%s_%d%d" % (real.replace(":", "_"), latlon, temporal)
             meta[tag] = (spec_cls, real, optname, fixed, latlon, temporal)
+            # classes of one spec class with the same optional-argument bounds share their TLC models
+            gkey = (spec_cls, tlaval.freeze(OPTB.get(real, {})), real in INTSCALE_OK, latlon, temporal)
+            if gkey in shared:
+                graph_of[tag] = shared[gkey]
+                continue
+            shared[gkey] = graph_of[tag] = tag
             if thorough or real in REPRESENTATIVE:
                 mod, cfg = mc_module("MC_" + tag, spec_cls, real, latlon, temporal, "quick" if thorough else "gen")
                 sc.write("MC_%s.tla" % tag, mod)
@@ -772,7 +778,7 @@ def run(pid, tier, seed, replay=None):
                               {"trace": tlc.error_trace(r)})
         work = []
         for tag, (spec_cls, real, optname, fixed, latlon, temporal) in meta.items():
-            work.append((tag, meta[tag], sc.dir, 5000 if thorough else 700, rng.randrange(2**31), tier, seed))
+            work.append((tag, meta[tag], sc.dir, 5000 if thorough else 700, rng.randrange(2**31), tier, seed, graph_of[tag]))
         import multiprocessing as mp
         with mp.get_context("fork").Pool(14) as pool:
             for res in pool.imap_unordered(_replay_tag, work):
